@@ -34,22 +34,22 @@ static const uint64_t RETMUL = 1000003ULL;
 static inline std::string S(const char *f, ...) {
   char b[512]; va_list ap; va_start(ap, f); vsnprintf(b, sizeof b, f, ap); va_end(ap); return b;
 }
-struct FuncInfo { std::string name; int na = 0, nd = 0; bool fuel = false; bool cgoto = false; };
+struct FuncInfo { std::string name; int na = 0, nd = 0; bool fuel = false; bool cgoto = false; int gv = 0; };
 
 // visit every nested statement block of a statement
 template <class F> static inline void for_each_block(const Json &st, F fn) {
   if (st.k != Json::Arr || st.size() == 0 || st[0].k != Json::Str) return;
   const std::string &k = st[0].s;
-  if (k == "if" && st.size() > 5) { fn(st[4]); fn(st[5]); }
+  if ((k == "if" || k == "fif") && st.size() > 5) { fn(st[4]); fn(st[5]); }
   else if (k == "loop" && st.size() > 2) fn(st[2]);
-  else if ((k == "sw" || k == "jt" || k == "lt") && st.size() > 2) for (auto &c : st[2].a) fn(c);
+  else if ((k == "sw" || k == "jt" || k == "lt" || k == "ld") && st.size() > 2) for (auto &c : st[2].a) fn(c);
 }
 template <class F> static inline void for_each_block_mut(Json &st, F fn) {
   if (st.k != Json::Arr || st.size() == 0 || st[0].k != Json::Str) return;
   const std::string k = st[0].s;
-  if (k == "if" && st.size() > 5) { fn(st[4]); fn(st[5]); }
+  if ((k == "if" || k == "fif") && st.size() > 5) { fn(st[4]); fn(st[5]); }
   else if (k == "loop" && st.size() > 2) fn(st[2]);
-  else if ((k == "sw" || k == "jt" || k == "lt") && st.size() > 2) for (auto &c : st[2].a) fn(c);
+  else if ((k == "sw" || k == "jt" || k == "lt" || k == "ld") && st.size() > 2) for (auto &c : st[2].a) fn(c);
 }
 template <class F> static inline void walk(const Json &body, F fn) {  // fn(stmt) for every statement, depth first
   for (auto &st : body.a) { fn(st); for_each_block(st, [&](const Json &b) { walk(b, fn); }); }
@@ -110,6 +110,11 @@ struct MirEmitter {
       std::string lt = newlab(), le = newlab();
       insn(br(st[1].s) + " " + lt + ", " + opnd(st[2]) + ", " + opnd(st[3]));
       stmts(st[5]); insn("jmp " + le); label(lt); insn("mov t2, t2"); stmts(st[4]); label(le);
+    } else if (k == "fif") {  // floating-point compare-and-branch on converted integers
+      std::string lt = newlab(), le = newlab();
+      insn("i2d fd0, " + opnd(st[2])); insn("i2d fd1, " + opnd(st[3]));
+      insn("db" + st[1].s + " " + lt + ", fd0, fd1");
+      stmts(st[5]); insn("jmp " + le); label(lt); insn("mov t2, t2"); stmts(st[4]); label(le);
     } else if (k == "loop") {
       std::string lc = S("lc%d", loop_depth), lh = newlab(), le = newlab(); loop_depth++;
       insn("mov " + lc + ", 0"); label(lh); insn("bge " + le + ", " + lc + ", " + opnd(st[1]));
@@ -119,7 +124,7 @@ struct MirEmitter {
       icalled.insert(st[2].s);
       insn("mov t0, r_" + st[2].s); insn("mov t0, i64:(t0)"); emit_call("t0", opnd(st[1]), st[2].s, st[3]);
     } else if (k == "ext") { uses_ext = true; insn("call p_ext, ext, " + opnd(st[1]) + ", " + opnd(st[2]) + ", " + opnd(st[3])); }
-    else if (k == "sw" || k == "jt" || k == "lt") {
+    else if (k == "sw" || k == "jt" || k == "lt" || k == "ld") {
       const Json &cs = st[2]; size_t n = cs.size(); std::vector<std::string> labs; for (size_t i = 0; i < n; i++) labs.push_back(newlab());
       std::string end = newlab();
       if (k == "sw") insn("umod t0, " + opnd(st[1]) + ", " + std::to_string(n));
@@ -131,11 +136,14 @@ struct MirEmitter {
         insn("laddr p, " + labs[0]);
         for (size_t i = 1; i < n; i++) { std::string sk = newlab(); insn("bne " + sk + ", t0, " + std::to_string(i)); insn("laddr p, " + labs[i]); label(sk); }
         insn("jmpi p");
-      } else {
+      } else if (k == "lt") {
         std::string tb = S("tb_%s_%d", fname.c_str(), (int) lrefs.size()); lrefs.push_back({tb, labs});
         insn("mov p, " + tb); insn("lsh t1, t0, 3"); insn("add p, p, t1"); insn("mov p, i64:(p)"); insn("jmpi p");
+      } else {  // "ld": table of label differences (lref Li, L0) added to the address of L0
+        std::string tb = S("td_%s_%d", fname.c_str(), (int) lrefs.size()); lrefs.push_back({tb, labs});
+        insn("mov t1, " + tb); insn("lsh t0, t0, 3"); insn("add t1, t1, t0"); insn("mov t1, i64:(t1)"); insn("laddr p, " + labs[0]); insn("add p, p, t1"); insn("jmpi p");
       }
-      cases(cs, labs, end, k != "sw");
+      cases(cs, labs, end, k != "sw");  // (lt and ld keep their tables in lref items placed after the function)
     } else if (k == "mem") {
       uses_mem = true; std::string ty = st[3].s; std::string disp = std::to_string((long long) st[4].num());
       // the value is narrowed explicitly first: store-to-load forwarding of an un-narrowed value is a program-level
@@ -163,7 +171,8 @@ struct MirEmitter {
     for (int i = 0; i < nd; i++) { insn(S("d2i t0, d%d", i)); insn("add v0, v0, t0"); }
     if (f.geti("fuel")) { std::string ls = newlab(); insn("bgt " + ls + ", a0, 0"); ret_block(Json(7)); label(ls); insn("mov t2, t2"); }
     std::string pro = out; out.clear();
-    return head + "\n\tlocal i64:v0, i64:v1, i64:v2, i64:v3, i64:v4, i64:v5, i64:t0, i64:t1, i64:t2, i64:p, i64:buf, i64:lc0, i64:lc1, i64:lc2\n" + pro + body_txt + "\tendfunc\n";
+    if (f.geti("gv")) { head += "\n\tglobal i64:gvr:r8"; pro = "\tmov gvr, " + std::to_string((long long) f.geti("gv")) + "\n" + pro + "\tadd v0, v0, gvr\n"; }
+    return head + "\n\tlocal d:fd0, d:fd1, i64:v0, i64:v1, i64:v2, i64:v3, i64:v4, i64:v5, i64:t0, i64:t1, i64:t2, i64:p, i64:buf, i64:lc0, i64:lc1, i64:lc2\n" + pro + body_txt + "\tendfunc\n";
   }
   // whole module; `all` maps every function name of the *program* to its signature
   std::string module(const Json &m, const std::map<std::string, FuncInfo> &all) {
@@ -171,7 +180,7 @@ struct MirEmitter {
     std::set<std::string> defined; for (auto &f : m.at("funcs").a) defined.insert(f.gets("name"));
     std::string funcs_txt; std::vector<std::pair<std::string, std::vector<std::string>>> all_lrefs;
     std::vector<std::string> ftxt;
-    for (auto &f : m.at("funcs").a) { lrefs.clear(); std::string t = func(f); for (auto &l : lrefs) { t += l.first + ":\tlref " + l.second[0] + "\n"; for (size_t i = 1; i < l.second.size(); i++) t += "\tlref " + l.second[i] + "\n"; all_lrefs.push_back(l); } ftxt.push_back(t); }
+    for (auto &f : m.at("funcs").a) { lrefs.clear(); std::string t = func(f); for (auto &l : lrefs) { bool diff = l.first.compare(0, 3, "td_") == 0; std::string sfx = diff ? ", " + l.second[0] : std::string(); t += l.first + ":\tlref " + l.second[0] + sfx + "\n"; for (size_t i = 1; i < l.second.size(); i++) t += "\tlref " + l.second[i] + sfx + "\n"; all_lrefs.push_back(l); } ftxt.push_back(t); }
     std::string r = m.gets("name") + ":\tmodule\n";
     bool fwd_first = m.geti("fwd_first", 0) != 0;  // declaration order forward -> export -> definition
     if (fwd_first) for (auto &f : m.at("funcs").a) if (called.count(f.gets("name")) || icalled.count(f.gets("name"))) r += "\tforward " + f.gets("name") + "\n";
@@ -229,11 +238,15 @@ struct CEmitter {
       ind(); out += "if (" + cond + ") {\n"; depth++;
       if (k == "if") { stmts(st[4]); depth--; ind(); out += "} else {\n"; depth++; stmts(st[5]); } else ret(st[4]);
       depth--; ind(); out += "}\n";
+    } else if (k == "fif") {
+      const std::string &c = st[1].s; std::string a = "(double)" + opnd(st[2]), b = "(double)" + opnd(st[3]);
+      std::string cond = c == "eq" ? a + " == " + b : c == "ne" ? a + " != " + b : c == "lt" ? a + " < " + b : c == "le" ? a + " <= " + b : c == "gt" ? a + " > " + b : a + " >= " + b;
+      ind(); out += "if (" + cond + ") {\n"; depth++; stmts(st[4]); depth--; ind(); out += "} else {\n"; depth++; stmts(st[5]); depth--; ind(); out += "}\n";
     } else if (k == "loop") { std::string lc = S("lc%d", depth); ind(); out += "for (long long " + lc + " = 0; " + lc + " < " + opnd(st[1]) + "; " + lc + "++) {\n"; depth++; stmts(st[2]); depth--; ind(); out += "}\n"; }
     else if (k == "call") call(st[2].s, st[1], st[2].s, st[3], *sigs);
     else if (k == "icall") call("r_" + st[2].s, st[1], st[2].s, st[3], *sigs);
     else if (k == "ext") { ind(); out += opnd(st[1]) + " = ext(" + opnd(st[2]) + ", " + opnd(st[3]) + ");\n"; }
-    else if (k == "sw" || k == "jt" || k == "lt") {
+    else if (k == "sw" || k == "jt" || k == "lt" || k == "ld") {
       ind(); out += "switch (" + (k == "sw" ? U(st[1]) : "(unsigned long long) ext(9LL, " + opnd(st[1]) + ")") + " % " + std::to_string(st[2].size()) + "ULL) {\n";
       for (size_t i = 0; i < st[2].size(); i++) { ind(); out += "case " + std::to_string(i) + ": {\n"; depth++; if (k != "sw") { ind(); out += "ext(" + std::to_string(20 + i) + "LL, 0LL);\n"; } stmts(st[2][i]); ind(); out += "break; }\n"; depth--; }
       ind(); out += "}\n";
@@ -256,6 +269,7 @@ struct CEmitter {
     for (auto &f : m.at("funcs").a) {
       fn = &f; depth = 0; out.clear(); auto &fi = all.at(f.gets("name"));
       r += (f.geti("exp", 1) ? "" : "static ") + proto(fi) + " {\n  long long v0 = 0, v1 = 0, v2 = 0, v3 = 0, v4 = 0, v5 = 0; char buf[64];\n  (void) v1; (void) v2; (void) v3; (void) v4; (void) v5; (void) buf;\n";
+      if (f.geti("gv")) r += "  v0 += " + std::to_string((long long) f.geti("gv")) + "LL;\n";
       for (int i = 0; i < fi.nd; i++) r += S("  v0 += (long long) d%d;\n", i);
       if (fi.fuel) r += "  if (!(a0 > 0)) return (long long)(7ULL * " + std::to_string(RETMUL) + "ULL + " + std::to_string((unsigned long long) f.geti("salt")) + "ULL);\n";
       stmts(f.at("body"));
@@ -299,6 +313,7 @@ struct Model {
         else if (o == "eq") r = a == b; else if (o == "ne") r = a != b; else if (o == "lt") r = (int64_t) a < (int64_t) b; else if (o == "le") r = (int64_t) a <= (int64_t) b; else if (o == "ult") r = a < b;
         setv(st[2], fr, (int64_t) r);
       } else if (k == "if") { if (cmp(st[1].s, val(st[2], fr), val(st[3], fr))) run(st[4], fr); else run(st[5], fr); }
+      else if (k == "fif") { double a = (double) val(st[2], fr), b = (double) val(st[3], fr); const std::string &c = st[1].s; bool t = c == "eq" ? a == b : c == "ne" ? a != b : c == "lt" ? a < b : c == "le" ? a <= b : c == "gt" ? a > b : a >= b; if (t) run(st[4], fr); else run(st[5], fr); }
       else if (k == "loop") { int64_t n = val(st[1], fr); for (int64_t i = 0; i < n && !fr.returned && !overrun; i++) run(st[2], fr); }
       else if (k == "call" || k == "icall") {
         std::vector<int64_t> args; for (auto &x : st[3].a) args.push_back(val(x, fr));
@@ -307,7 +322,7 @@ struct Model {
         setv(st[1], fr, r);
       } else if (k == "ext") { int64_t tag = val(st[2], fr), v = val(st[3], fr); log.push_back({tag, v}); int64_t r = ext ? ext(tag, v, *this) : v * 3 + tag; setv(st[1], fr, r); }
       else if (k == "sw") { uint64_t s = (uint64_t) val(st[1], fr); run(st[2][s % st[2].size()], fr); }
-      else if (k == "jt" || k == "lt") { int64_t v = val(st[1], fr); log.push_back({9, v}); uint64_t s = (uint64_t) (ext ? ext(9, v, *this) : v * 3 + 9); size_t ci = s % st[2].size(); log.push_back({(int64_t) (20 + ci), 0}); if (ext) ext((int64_t) (20 + ci), 0, *this); run(st[2][ci], fr); }
+      else if (k == "jt" || k == "lt" || k == "ld") { int64_t v = val(st[1], fr); log.push_back({9, v}); uint64_t s = (uint64_t) (ext ? ext(9, v, *this) : v * 3 + 9); size_t ci = s % st[2].size(); log.push_back({(int64_t) (20 + ci), 0}); if (ext) ext((int64_t) (20 + ci), 0, *this); run(st[2][ci], fr); }
       else if (k == "mem") {
         int64_t s = val(st[2], fr), r; const std::string &t = st[3].s;
         r = t == "i8" ? (int8_t) s : t == "u8" ? (uint8_t) s : t == "i16" ? (int16_t) s : t == "u16" ? (uint16_t) s : t == "i32" ? (int32_t) s : t == "u32" ? (int64_t) (uint32_t) s : s;
@@ -322,7 +337,8 @@ struct Model {
     if (++depth > 200) { overrun = true; depth--; return 0; }
     entered.push_back(&f);
     Frame fr; memset(fr.v, 0, sizeof fr.v); fr.f = &f; fr.mod = module_of ? module_of(&f) : ""; fr.a = args; fr.a.resize((size_t) f.geti("na"), 0);
-    for (int i = 0; i < (int) f.geti("nd"); i++) fr.v[0] += 2 + i;  // callers always pass 2.0, 3.0, 4.0 (d2i)
+    fr.v[0] += f.geti("gv");                                         // hard-register global variable, set and added in the prologue
+    for (int i = 0; i < (int) f.geti("nd"); i++) fr.v[0] += 2 + i;  // callers always pass 2.0, 3.0, ... (d2i)
     if (f.geti("fuel") && !(fr.a[0] > 0)) { depth--; return retval(fr, 7); }
     run(f.at("body"), fr);
     depth--;
@@ -333,7 +349,7 @@ struct Model {
 // ------------------------------------------------------------------------------------------------ generator
 struct GenOpts {
   int nmods = 2, nfuncs = 3, body = 6; bool lref = true, jt = true, icall = true, ext = true, mem = true, loops = true, doubles = true, recursion = true, sw = true;
-  int max_na = 8; int sw_weight = 8;
+  int max_na = 8; int sw_weight = 8; bool gvar = true, fpbranch = true, ldiff = true;
 };
 struct Generator {
   Rng &r; GenOpts o; std::vector<FuncInfo> fs; int cur = 0; int depth = 0; bool in_loop = false;
@@ -366,7 +382,8 @@ struct Generator {
     if (c < 34 || deep) {
       if (r.chance(1, 6)) { static const char *sh[] = {"lsh", "rsh", "ursh"}; s.push("op"); s.push(sh[r.below(3)]); s.push(dst()); s.push(src()); s.push((int) r.below(64)); }
       else { s.push("op"); s.push(ops[r.below(15)]); s.push(dst()); s.push(src()); s.push(src()); }
-    } else if (c < 44) { depth++; s.push("if"); s.push(cmps[r.below(8)]); s.push(src()); s.push(src()); s.push(block((int) r.range(1, 2))); s.push(block((int) r.range(0, 2))); depth--; }
+    } else if (c < 37 && o.fpbranch) { static const char *fc[] = {"eq", "ne", "lt", "le", "gt", "ge"}; depth++; s.push("fif"); s.push(fc[r.below(6)]); s.push(src(false)); s.push(r.chance(1, 3) ? src(false) : src()); s.push(block((int) r.range(1, 2))); s.push(block((int) r.range(0, 2))); depth--; }
+    else if (c < 44) { depth++; s.push("if"); s.push(cmps[r.below(8)]); s.push(src()); s.push(src()); s.push(block((int) r.range(1, 2))); s.push(block((int) r.range(0, 2))); depth--; }
     else if (c < 50 && o.loops && !in_loop) { depth++; in_loop = true; s.push("loop"); s.push((int) r.range(1, 5)); s.push(block((int) r.range(1, 3))); in_loop = false; depth--; }
     else if (c < 66) {  // call: downward always; upward/self only between fuel functions
       std::vector<int> cand; for (int j = 0; j < (int) fs.size(); j++) { if (j > cur) cand.push_back(j); else if (o.recursion && fs[cur].fuel && fs[j].fuel) cand.push_back(j); }
@@ -374,7 +391,8 @@ struct Generator {
       int j = cand[r.below(cand.size())]; bool ic = o.icall && r.chance(1, 4);
       // a function with computed gotos is only called indirectly (never inlined): two inlined copies of laddr/jmpi code in
       // one caller crash the generated code at the pinned commit -- a program-level generator matter, not a history one
-      if (fs[j].cgoto) ic = true;
+      if (fs[j].cgoto || fs[j].gv) ic = true;
+      if (ic && !o.icall) return stmt_simple();
       s.push(ic ? "icall" : "call"); s.push(dst()); s.push(fs[j].name); s.push(args_for(j, j <= cur));
     } else if (c < 74 && o.ext) { s.push("ext"); s.push(dst()); s.push((int) r.range(1, 6)); s.push(src()); }
     else if (c < 74 + (unsigned) o.sw_weight && o.sw) {
@@ -387,19 +405,21 @@ struct Generator {
   Json stmt_simple() { Json s = Json::array(); s.push("op"); s.push("add"); s.push(dst()); s.push(src()); s.push(src()); return s; }
   Json program() {
     int total = o.nmods * o.nfuncs; fs.clear();
-    for (int i = 0; i < total; i++) { FuncInfo fi; fi.name = S("f%d", i); fi.fuel = o.recursion && r.chance(1, 3); fi.na = (int) r.range(fi.fuel ? 1 : 0, r.chance(1, 4) ? o.max_na : 3); fi.nd = o.doubles && r.chance(1, 4) ? (int) r.range(1, 3) : 0; fi.cgoto = (o.jt || o.lref) && r.chance(1, 2); fs.push_back(fi); }
+    for (int i = 0; i < total; i++) { FuncInfo fi; fi.name = S("f%d", i); fi.fuel = o.recursion && r.chance(1, 3); fi.na = (int) r.range(fi.fuel ? 1 : 0, r.chance(1, 4) ? o.max_na : 3); fi.nd = o.doubles && r.chance(1, 4) ? (int) (r.chance(1, 3) ? r.range(4, 8) : r.range(1, 3)) : 0; fi.cgoto = (o.jt || o.lref) && r.chance(1, 2);
+      if (o.gvar && fi.na <= 4 && r.chance(1, 6)) fi.gv = (int) r.range(1, 90);  // a variable tied to hard register r8 (free when at most 4 integer parameters)
+      fs.push_back(fi); }
     // spread functions over modules round-robin so that calls cross module borders in both directions
     Json prog = Json::object(), mods = Json::array();
     for (int m = 0; m < o.nmods; m++) { Json mo = Json::object(); mo.set("name", S("m%d", m)); mo.set("funcs", Json::array()); mods.push(mo); }
     for (int i = 0; i < total; i++) {
       cur = i; depth = 0; in_loop = false;
-      Json f = Json::object(); f.set("name", fs[i].name); f.set("salt", (long long) (1000 + 37 * i + (long long) r.below(30))); f.set("na", fs[i].na); f.set("nd", fs[i].nd); f.set("fuel", (int) fs[i].fuel); f.set("exp", 1);
+      Json f = Json::object(); f.set("name", fs[i].name); f.set("salt", (long long) (1000 + 37 * i + (long long) r.below(30))); f.set("na", fs[i].na); f.set("nd", fs[i].nd); f.set("fuel", (int) fs[i].fuel); f.set("exp", 1); if (fs[i].gv) f.set("gv", fs[i].gv);
       Json body = Json::array();
       if (fs[i].fuel) { Json s = Json::array(); s.push("op"); s.push("sub"); s.push("v5"); s.push("a0"); s.push(1); body.push(s); }
       // computed gotos (laddr/jmpi, lref tables) come first in a body, where they are reachable whatever the optimizer folds:
       // address-taken labels inside unreachable code are a generator (C01) matter the histories should not trip over
       if (fs[i].cgoto) {
-        Json s = Json::array(); depth = 2; s.push(o.jt && (!o.lref || r.coin()) ? "jt" : "lt"); s.push(src(false));
+        Json s = Json::array(); depth = 2; s.push(o.jt && (!o.lref || r.coin()) ? "jt" : (o.ldiff && r.coin() ? "ld" : "lt")); s.push(src(false));
         Json cs = Json::array(); int nc = (int) r.range(2, 4); for (int q = 0; q < nc; q++) cs.push(block((int) r.range(1, 2))); s.push(cs); body.push(s); depth = 0;
       }
       int n = (int) r.range(2, o.body);
